@@ -297,6 +297,8 @@ def _plan_from_desc(world, plan):
         # differs from the real one (set-uid wrapper)
         if d.get(k) is not None and plan.get(k) is None:
             plan[k] = d[k]
+    if d.get('ro_volumes_rel') and not plan.get('ro_volumes'):
+        plan['ro_volumes'] = [world.abs(m) for m in d['ro_volumes_rel']]
     if d.get('same_ino_rel') and not plan.get('same_ino'):
         # inode numbers coincide across volumes (they are per file system)
         plan['same_ino'] = [world.abs(m) for m in d['same_ino_rel']]
